@@ -1,6 +1,7 @@
 """C03 - a Brownian object is one path: additivity, Chen's relation, zero-length queries."""
 from props.base import Job, T1, T2, T5, T6
 from props import tree_jobs as TJ
+from props import wrapper_jobs as WJ
 
 LEVEL = 'proof'
 TRUSTED = ['pyvc interpreter + heap model (T6)', 'z3 5.1.0 / cvc5 1.0.3 / z3 4.8.12', 'trampoline (yield = call, TailCall = return)']
@@ -19,7 +20,7 @@ def jobs(tier):
     P = 'C03'
     return [TJ.job_split_algebra(P, ('chen',)), TJ.job_pure_lemmas(P),
             TJ.make(P, 'split_exact', True), TJ.make(P, 'split', True), TJ.make(P, 'loc_inner', True), TJ.make(P, 'loc', True),
-            TJ.make(P, 'call', True), TJ.make(P, 'loc_inner', False)]
+            TJ.make(P, 'call', True), TJ.make(P, 'loc_inner', False), WJ.job_wrappers(P)]
 
 
 def canaries(tier):
@@ -28,6 +29,7 @@ def canaries(tier):
         {'name': 'bridge-coefficient-6-to-5', 'job': 'split-algebra', 'patches': [(B, 'second_coeff = 6 * first_coeff * right_diff * h_reciprocal', 'second_coeff = 5 * first_coeff * right_diff * h_reciprocal')]},
         {'name': 'aggregate-H-sign', 'job': 'call-ghost', 'patches': [(B, 'term2 = (interval._start - ta) * (H - 0.5 * Wi)', 'term2 = (interval._start - ta) * (H + 0.5 * Wi)')]},
         {'name': 'leaf-test-falsy-midway', 'job': 'loc_inner-ghost', 'patches': [(B, '        if self._midway is None:\n            # It\'s up to us.', '        if not self._midway:\n            # It\'s up to us.')]},
+        {'name': 'reverse-forwards-U-unchanged', 'job': 'wrappers', 'patches': [('torchsde._brownian.derived', '                rest[0] = (tb - ta) * W - rest[0]\n', '                pass\n')]},
         {'name': 'straddle-second-call-wrong-interval', 'job': 'loc_inner', 'patches': [(B, 'raise trampoline.TailCall(self._right_child._loc_inner(self._midway, tb, out))', 'raise trampoline.TailCall(self._right_child._loc_inner(ta, tb, out))')]},
     ]
 
